@@ -4,6 +4,7 @@
 mod compl;
 mod direct;
 mod hist;
+mod linebuf;
 mod seg;
 mod udata;
 mod util;
@@ -37,6 +38,7 @@ fn main() {
         "seg" => seg::run(&mut inp, &mut out),
         "direct" => direct::run(&mut inp, &mut out),
         "compl" => compl::run(&mut inp, &mut out),
+        "linebuf" => linebuf::run(&mut inp, &mut out),
         other => {
             eprintln!("unknown stream {other}");
             std::process::exit(2);
